@@ -211,8 +211,8 @@ def check_rules(rules: Sequence[Tuple[str, str]], s=None) -> Tuple[List[Dict[str
 
 # ---------------------------------------------------------------- (c) op sequences
 
-OPS = ['q:a', 'q:_a', 'mv:a->n', 'mv:a->m', 'q:C.f', 'mv:C->n']
-SEQ_RULES = [('HIDDEN', 'n.a'), ('PRIVATE', 'm.a'), ('PUBLIC', '**._a'), ('HIDDEN', 'n.C'), ('PRIVATE', 'n.C.*')]
+OPS = ['q:a', 'q:_a', 'mv:a->n', 'mv:a->m', 'q:C.f', 'mv:C->n', 'q:C.N.x', 'mv:C->m']
+SEQ_RULES = [('HIDDEN', 'n.a'), ('PRIVATE', 'm.a'), ('PUBLIC', '**._a'), ('PRIVATE', 'n.C.*'), ('HIDDEN', 'm.C.**'), ('PRIVATE', 'n.C.N.x')]
 
 
 def run_ops(seq: Sequence[str]) -> Tuple[List[Dict[str, Any]], List[Tuple[Any, Any]], bool]:
@@ -223,13 +223,15 @@ def run_ops(seq: Sequence[str]) -> Tuple[List[Dict[str, Any]], List[Tuple[Any, A
     trace: List[Tuple[Any, Any]] = []
 
     def state() -> Tuple[Any, ...]:
-        return (a.fullName(), C.fullName(), tuple(sorted((k, v.name) for k, v in s._privacyClassCache.items())))
+        # the cache is an implementation detail: only its size and the answers it holds are part of the abstract state
+        cache = getattr(s, '_privacyClassCache', {})
+        return (a.fullName(), C.fullName(), tuple(sorted((k if isinstance(k, str) else getattr(k, 'fullName', lambda: repr(k))(), getattr(v, 'name', repr(v))) for k, v in cache.items())))
     st = state()
     queried = False
     moved_after_query = False
     for op in seq:
         if op.startswith('q:'):
-            o = {'q:a': a, 'q:_a': _a, 'q:C.f': f}[op]
+            o = {'q:a': a, 'q:_a': _a, 'q:C.f': f, 'q:C.N.x': C.contents['N'].contents['x']}[op]
             got = o.privacyClass.name
             want = ref_privacy(o.fullName(), SEQ_RULES)
             gv, wv = o.isVisible, ref_visible(o.fullName(), SEQ_RULES)
@@ -238,7 +240,7 @@ def run_ops(seq: Sequence[str]) -> Tuple[List[Dict[str, Any]], List[Tuple[Any, A
                 vs.append(core.violation('cache/stale-after-move', f'after {list(seq)}: {o.fullName()} answers {got}/visible={gv}, stateless reference {want}/visible={wv}',
                                          {'kind': 'ops', 'seq': list(seq)}))
         else:
-            obj, dest = {'mv:a->n': (a, n), 'mv:a->m': (a, m), 'mv:C->n': (C, n)}[op]
+            obj, dest = {'mv:a->n': (a, n), 'mv:a->m': (a, m), 'mv:C->n': (C, n), 'mv:C->m': (C, m)}[op]
             if obj.parent is not dest:
                 obj.reparent(dest, obj.name)
                 if queried:
